@@ -136,9 +136,14 @@ func ASCII85Decode(data []byte) ([]byte, error) {
 
 		// Convert base-85 to binary
 		// Each group of 5 digits represents 4 bytes
-		value := uint32(0)
+		// (accumulated in 64 bits: five digits reach 85^5-1, which is more
+		// than four bytes hold, and such a group encodes nothing)
+		value := uint64(0)
 		for _, d := range digits {
-			value = value*85 + uint32(d)
+			value = value*85 + uint64(d)
+		}
+		if value > 0xFFFFFFFF {
+			return nil, fmt.Errorf("invalid ASCII85 group: value %d exceeds 2^32-1", value)
 		}
 
 		// Extract bytes (big-endian)
